@@ -13,10 +13,12 @@ import (
 	"math/big"
 	"strconv"
 	"strings"
+	"unicode"
 	"unicode/utf8"
 
 	"github.com/cockroachdb/apd/v3"
 	"github.com/dolthub/go-mysql-server/sql"
+	"github.com/dolthub/go-mysql-server/vh/internal/kf"
 	"pgregory.net/rapid"
 )
 
@@ -327,6 +329,49 @@ func tameKey(k string) bool {
 	return true
 }
 
+// legKey reports whether member name k may be used as a path leg: tame names always; the
+// empty name and names holding " \ [ * $ only while the finding that covers them is not
+// listed (counted as excluded otherwise); names with control characters never.
+func (g *gen) legKey(k string) bool {
+	if tameKey(k) {
+		return true
+	}
+	id := kfPathQuotedName
+	if k == "" {
+		id = kfPathEmptyName
+	}
+	for i := 0; i < len(k); i++ {
+		if k[i] < 0x20 {
+			return false
+		}
+	}
+	if kf.Listed(id) {
+		if g.excluded != nil {
+			g.excluded(id)
+		}
+		return false
+	}
+	return true
+}
+
+// identKey: the name may be written without quotes in a path. Non-ASCII identifiers are
+// written unquoted only while C32-path-unquoted-unicode is not listed.
+func identKey(k string) bool {
+	if plainIdent(k) {
+		return true
+	}
+	if k == "" || kf.Listed(kfPathUnicode) {
+		return false
+	}
+	for i, r := range k {
+		if r == '_' || unicode.IsLetter(r) || i > 0 && unicode.IsDigit(r) {
+			continue
+		}
+		return false
+	}
+	return true
+}
+
 func plainIdent(k string) bool {
 	if k == "" {
 		return false
@@ -355,6 +400,20 @@ func genString(rt *rapid.T, lbl string) string {
 	return rapid.SampledFrom(strPool).Draw(rt, lbl)
 }
 
+// Proposed finding ids (notes/C32.findings.json). A region is kept out of the random search
+// only while its id is listed (kf.Listed); otherwise it is generated and a violation fails.
+const (
+	kfFloatOverflow  = "C32-float-overflow"
+	kfPrintDouble    = "C32-print-double-2p63"
+	kfCmpRange       = "C32-cmp-int-double-range"
+	kfDecimalClone   = "C32-decimal-clone"
+	kfReadLast       = "C32-read-last"
+	kfReadAutowrap   = "C32-read-autowrap"
+	kfPathEmptyName  = "C32-path-empty-name"
+	kfPathQuotedName = "C32-path-quoted-name"
+	kfPathUnicode    = "C32-path-unquoted-unicode"
+)
+
 // overflowNum is the region of finding C32-float-overflow (a JSON number outside the double range).
 const overflowNum = "1e400"
 
@@ -374,14 +433,17 @@ func genNum(rt *rapid.T, lbl string, excluded func(string)) string {
 	}
 	t := rapid.SampledFrom(numPool).Draw(rt, lbl)
 	if _, ok := numVal(t, false); !ok {
-		if excluded != nil {
-			excluded("C32-float-overflow")
+		// A number outside the double range never enters a generated document: the required
+		// behaviour is "rejected or printed as valid JSON", so no reference tree exists. The
+		// witnesses of TestC32Known cover it in both states of the finding.
+		if excluded != nil && kf.Listed(kfFloatOverflow) {
+			excluded(kfFloatOverflow)
 		}
 		return "1e300"
 	}
-	if printLossy(t) {
+	if printLossy(t) && kf.Listed(kfPrintDouble) {
 		if excluded != nil {
-			excluded("C32-print-double-2p63")
+			excluded(kfPrintDouble)
 		}
 		return "1e19"
 	}
@@ -429,7 +491,7 @@ func (g *gen) num(lbl string) string {
 	t := genNum(g.rt, lbl, g.excluded)
 	if g.noHugeDouble && hugeDouble(t) {
 		if g.excluded != nil {
-			g.excluded("C32-cmp-int-double-range")
+			g.excluded(kfCmpRange)
 		}
 		return "9007199254740993.0"
 	}
@@ -507,7 +569,7 @@ func (p path) render(resolved bool) string {
 	for _, l := range p {
 		if l.isKey {
 			sb.WriteByte('.')
-			if l.quote || !plainIdent(l.key) {
+			if l.quote || !identKey(l.key) {
 				sb.WriteByte('"')
 				for i := 0; i < len(l.key); i++ {
 					if l.key[i] == '"' || l.key[i] == '\\' {
@@ -534,6 +596,21 @@ func (p path) render(resolved bool) string {
 	return sb.String()
 }
 
+// renderRead: the path as the read functions get it after a JSON_SET / JSON_ARRAY_APPEND with
+// the written path p. While C32-read-last is listed it is the resolved path; otherwise the
+// last-forms are kept (the arrays they index keep their length under both functions) and
+// only an index past the end is resolved to the cell it created.
+func (p path) renderRead() string {
+	if kf.Listed(kfReadLast) {
+		return p.render(true)
+	}
+	q := append(path(nil), p...)
+	for i := range q {
+		q[i].over = 0
+	}
+	return q.render(false)
+}
+
 func (p path) usesLast() bool {
 	for _, l := range p {
 		if !l.isKey && l.form == 1 {
@@ -555,14 +632,8 @@ func (g *gen) walk(doc *node, maxLegs int, lbl string) (path, []*node) {
 		case kObj:
 			var tame []int
 			for i, k := range cur.keys {
-				if tameKey(k) {
+				if g.legKey(k) {
 					tame = append(tame, i)
-				} else if g.excluded != nil {
-					if k == "" {
-						g.excluded("C32-path-empty-name")
-					} else {
-						g.excluded("C32-path-quoted-name")
-					}
 				}
 			}
 			if len(tame) == 0 {
@@ -581,10 +652,10 @@ func (g *gen) walk(doc *node, maxLegs int, lbl string) (path, []*node) {
 			cur = cur.arr[i]
 			nodes = append(nodes, cur)
 		default:
-			if g.excluded != nil && rapid.IntRange(0, 7).Draw(g.rt, lbl+"wrap") == 0 {
-				// an index leg on a non-array ($.a[0] on a scalar) is the region of C32-read-autowrap
-				g.excluded("C32-read-autowrap")
-			}
+			// An index leg on a non-array ($.a[0] on a scalar; region of C32-read-autowrap) is not
+			// generated in either state of the finding: under auto-wrapping the law (3) reads back
+			// v[0] instead of v when v is an array, so the region needs its own oracle; the
+			// witnesses of TestC32Known state it on fixed instances.
 			return p, nodes
 		}
 	}
